@@ -21,7 +21,7 @@
 From stdpp Require Import gmap.
 From Coq Require Import List NArith.
 From P9 Require Import Model.SessLock Proofs.SessLockProofs Proofs.SessLockProofsLin Proofs.SessLockProofsScopes Proofs.SessLockProofsTie.
-From P9 Require Import Proofs.SessLockProofsLinAll Proofs.SessLockProofsLinAll2.
+From P9 Require Import Proofs.SessLockProofsLinAll Proofs.SessLockProofsLinAll2 Proofs.SessLockProofsLinAll3.
 From P9 Require Import Gen.GenSessLock.
 
 (* the programs below were transcribed from the methods whose lock-protocol trace sets (over all syntactic
@@ -122,6 +122,36 @@ Theorem C14_linearizable_disjoint : forall reqauth ops sched,
   exists o, linearization reqauth (history_of_run reqauth ops sched) o.
 Proof. exact linearizable_disjoint. Qed.
 Print Assumptions C14_linearizable_disjoint.
+
+(* the same, started in ANY quiescent session state b instead of the fresh one ([start b reqauth id0 ops]: b's fid
+   table and SFids, the operations not yet begun; [base_ok b]: no mutex held, distinct fids name distinct SFids,
+   every SFid in the table was allocated; [linearization_from]: [linearization] with the one-at-a-time run started
+   in b; [history_from]: [history_of_run] for that start state) ... *)
+Theorem C14_linearizable_disjoint_from : forall reqauth b id0 ops sched,
+  base_ok b ->
+  disjoint_fids (map fst ops) = true ->
+  all_done (run sched (start b reqauth id0 ops)) ->
+  exists o, linearization_from reqauth b (history_from b reqauth id0 ops sched) o.
+Proof. exact linearizable_disjoint_from. Qed.
+Print Assumptions C14_linearizable_disjoint_from.
+
+(* ... every state that a sequential run of operations leaves is such a state ([seq_state]: [seq_op] folded over
+   the set-up) ... *)
+Theorem C14_setup_state_ok : forall reqauth hs s, base_ok s -> base_ok (seq_state reqauth s hs).
+Proof. exact base_ok_seq_state. Qed.
+Print Assumptions C14_setup_state_ok.
+
+(* ... so: after ANY sequential set-up [pre] of the fresh session (attach, walks, opens, creates, clunks, ... of any
+   length, any scripts), any number of operations on pairwise disjoint fid sets, under any schedule, are
+   linearizable relative to the session the set-up left: the set-up in its order followed by the concurrent
+   operations in their order of return is a sequential explanation of the whole history *)
+Theorem C14_linearizable_disjoint_after_setup : forall reqauth pre id0 ops sched,
+  disjoint_fids (map fst ops) = true ->
+  all_done (run sched (start (seq_state reqauth (init reqauth []) pre) reqauth id0 ops)) ->
+  exists o, linearization_from reqauth (seq_state reqauth (init reqauth []) pre)
+              (history_from (seq_state reqauth (init reqauth []) pre) reqauth id0 ops sched) o.
+Proof. exact linearizable_disjoint_after_setup. Qed.
+Print Assumptions C14_linearizable_disjoint_after_setup.
 
 (* the tool behind it, for ALL client operations (no disjointness): two states that agree up to a pointer
    renaming R on the fids F an operation names, and in which that operation has R-related programs, take
@@ -234,3 +264,16 @@ Example C14_disjoint_class_inhabited :
   map (fun h => r_cls (h_res h)) (history_of_run true ex_dis_ops ex_dis_sched) = [R_OK; R_FSERR; R_OK; R_UNKNOWNFID; R_UNKNOWNFID] /\
   lin_order true ex_dis_ops ex_dis_sched = [3; 4; 0; 1; 2]%nat.
 Proof. exact ex_disjoint_in_class. Qed.
+
+(* ... and so is the class of C14_linearizable_disjoint_after_setup, with real FileSys calls in parallel: after
+   attach(0), clone 0->1, clone 0->2, walk 0->4, open(4), the operations read(4), stat(2), clone 0->3,
+   create in 1 and clunk(7) run interleaved action by action; read/stat and clone/create overlap in real
+   time; each makes its one FileSys call and succeeds (read returns its 5 bytes), clunk(7) finds nothing *)
+Example C14_disjoint_after_setup_inhabited :
+  disjoint_fids (map fst ex_conc) = true /\
+  all_done (run ex_conc_sched (start ex_base false 8%N ex_conc)) /\
+  overlapb (history_from ex_base false 8%N ex_conc ex_conc_sched) 0 1 = true /\
+  overlapb (history_from ex_base false 8%N ex_conc ex_conc_sched) 2 3 = true /\
+  map (fun h => (r_cls (h_res h), r_val (h_res h), length (h_calls h))) (history_from ex_base false 8%N ex_conc ex_conc_sched)
+    = [(R_OK, 5%N, 1%nat); (R_OK, 0%N, 1%nat); (R_OK, 0%N, 1%nat); (R_OK, 0%N, 1%nat); (R_UNKNOWNFID, 0%N, 0%nat)].
+Proof. exact ex_setup_then_disjoint. Qed.
